@@ -111,6 +111,24 @@ def run_shard(shard: Dict[str, Any], rep: Report) -> None:
 
     n_reset, n_step = jax.jit(env.reset), jax.jit(env.step)
     aspec = env.action_spec
+    # environment-specific workloads (drive to completion / to the extreme cells) so that boundary observations are
+    # also relayed through the adapters
+    from jmon.modelapi import ModelCtx
+
+    P = ModelCtx(name, cfg, rep, env=base, rng=rng)
+    model_pols = P.call("policies") if P.has("policies") else {}
+    model_pol_list = [model_pols[k] for k in ("complete", "frontier") if k in model_pols]
+
+    class _R:  # minimal runner facade for policies that look ahead with the real step
+        env_name, spec = name, aspec
+
+        def __init__(self):
+            self.env = base
+
+        def step(self, st, a):
+            return n_step(st, A.as_action(aspec, a))
+
+    facade = _R()
 
     # ---------------- Gym ---------------------------------------------------------------------------------------
     for sd in seeds:
@@ -139,8 +157,18 @@ def run_shard(shard: Dict[str, Any], rep: Report) -> None:
             if bad:
                 viol("gym_reset_info", {"fields": bad[:6]}, replay=rp)
             trace = []
-            for i in range(n_steps):
-                if rng.random() < 0.5:
+            use_model_pol = model_pol_list[(rnum + seeds.index(sd)) % len(model_pol_list)] if (model_pol_list and (rnum + seeds.index(sd)) % 2 == 1) else None
+            pctx = {"env_name": name, "spec": aspec, "rng": rng, "runner": facade, "legal_only": True, "policy": "model", "key": rk, "key_int": None, "episode": rnum}
+            for i in range(n_steps if use_model_pol is None else max(n_steps, 120)):
+                if use_model_pol is not None:
+                    pctx.update(ts=t0, state=s0, t=i)
+                    try:
+                        a = np.asarray(use_model_pol(pctx))
+                    except Exception:
+                        a = np.asarray(A.sample_masked(name, aspec, A.get_mask(t0), rng)[0])
+                    rep.count("gym_model_policy_actions")
+                    aj = jnp.asarray(a)
+                elif rng.random() < 0.5:
                     a = g.action_space.sample()
                     rep.count("gym_sampled_actions")
                     aj = jnp.asarray(a)
